@@ -1292,6 +1292,43 @@ def recover_function_renames(trees: dict[str, ast.Module], log: list[str]) -> No
         log.append(f"R0 function rename recovered: {k} -> {v}")
 
 
+class _LocalAnnotations(ast.NodeTransformer):
+    """G20: inside function bodies `x: T = v` -> `x = v` (the annotation is kept on the node as `_ann`), a bare `x: T` is dropped.
+    Class-level annotated assignments (dataclass fields) are left alone."""
+
+    def __init__(self) -> None:
+        self.depth = 0
+
+    def visit_ClassDef(self, n: ast.ClassDef):
+        d, self.depth = self.depth, 0
+        self.generic_visit(n)
+        self.depth = d
+        return n
+
+    def visit_FunctionDef(self, n):
+        self.depth += 1
+        self.generic_visit(n)
+        self.depth -= 1
+        for parent in ast.walk(n):
+            for fld in ("body", "orelse", "finalbody"):
+                blk = getattr(parent, fld, None)
+                if isinstance(blk, list) and not blk and fld == "body":
+                    blk.append(ast.Pass())
+        return n
+
+    visit_AsyncFunctionDef = visit_FunctionDef
+
+    def visit_AnnAssign(self, n: ast.AnnAssign):
+        self.generic_visit(n)
+        if self.depth == 0:
+            return n
+        if n.value is None:
+            return None
+        a = ast.copy_location(ast.Assign(targets=[n.target], value=n.value), n)
+        a._ann = n.annotation  # type: ignore[attr-defined]
+        return a
+
+
 def normalize_module(tree: ast.Module, modname: str, log: list[str] | None = None) -> ast.Module:
     log = log if log is not None else []
     ref = reference()["functions"]
@@ -1353,6 +1390,7 @@ def normalize_module(tree: ast.Module, modname: str, log: list[str] | None = Non
         tree = _Global().visit(tree)
         if ast.dump(tree) == before:
             break
+    tree = _LocalAnnotations().visit(tree)
     # G9: canonical spelling of equivalent idioms (sa.astx._Idioms) on every expression of the module
     from sa.astx import _Idioms
     tree = _Idioms().visit(tree)
